@@ -95,6 +95,7 @@ type Obligation struct {
 	Expected string // "" or "known-finding"
 	Block    *ssa.BasicBlock
 	Split    []*Term
+	RawQuery string
 }
 
 type edgeInfo struct {
@@ -137,6 +138,8 @@ type FnVC struct {
 	blockCases map[*ssa.BasicBlock][]*Term
 	defBlocks []*ssa.BasicBlock
 	paramConsts map[string]bool
+	curLoopState *loopState
+	refHeaps map[string]bool
 	ancestors map[*ssa.BasicBlock]map[*ssa.BasicBlock]bool
 	pkg      *types.Package
 }
@@ -147,6 +150,14 @@ type loopState struct {
 	variant []*Term
 	preEnv  *Env
 	autos   []func(st *State) *Term
+	frame   map[string]*loopFrame
+}
+
+// loopFrame: while the loop runs, stores into heap may only hit these arrays
+// (their refs at loop entry) or memory allocated since loop entry.
+type loopFrame struct {
+	alloc *Term
+	refs  []*Term
 }
 
 type modTarget struct {
@@ -427,6 +438,106 @@ func (v *FnVC) stableRef(heap string, ref *Term) bool {
 		}
 	}
 	return true
+}
+
+// assumeClosure: memory safety of Go means every reference stored anywhere in
+// the heap points to memory that has already been allocated. Assumed for the
+// heaps of reference-typed elements at state st (entry, loop heads, after calls).
+func (v *FnVC) assumeClosure(st *State, guard *Term, only map[string]bool) {
+	var names []string
+	for h := range v.heapSorts {
+		names = append(names, h)
+	}
+	sort.Strings(names)
+	for _, h := range names {
+		if only != nil && !only[h] {
+			continue
+		}
+		srt := v.heapSorts[h]
+		ht := v.heap(st, h, srt)
+		freshCounter++
+		r := Var(fmt.Sprintf("cl?%d", freshCounter), SInt)
+		k := Var(fmt.Sprintf("ck?%d", freshCounter), SInt)
+		isRefHeap := v.refHeaps[h]
+		switch srt {
+		case HeapSort(SSlice):
+			e := Select(Select(ht, r), k)
+			v.assume(guard, Forall([]*Term{r, k}, And(Lt(SRef(e), st.alloc), App("valid-slice", SBool, e)), []*Term{e}), "heap-closure")
+		case ArrSort(SSlice):
+			e := Select(ht, r)
+			v.assume(guard, Forall([]*Term{r}, And(Lt(SRef(e), st.alloc), App("valid-slice", SBool, e)), []*Term{e}), "heap-closure")
+		case HeapSort(SInt):
+			if isRefHeap {
+				e := Select(Select(ht, r), k)
+				v.assume(guard, Forall([]*Term{r, k}, And(Le(IntLit(0), e), Lt(e, st.alloc)), []*Term{e}), "heap-closure")
+			}
+		case ArrSort(SInt):
+			if isRefHeap {
+				e := Select(ht, r)
+				v.assume(guard, Forall([]*Term{r}, And(Le(IntLit(0), e), Lt(e, st.alloc)), []*Term{e}), "heap-closure")
+			}
+		}
+	}
+}
+
+// prescanHeaps registers every heap the function can touch (by static type).
+func (v *FnVC) prescanHeaps() {
+	reg := func(t types.Type) {
+		defer func() { recover() }()
+		for _, h := range refHeaps(t) {
+			if _, ok := v.heapSorts[h.name]; !ok {
+				v.heapSorts[h.name] = h.sort
+			}
+		}
+		v.markRefHeaps(t)
+	}
+	for _, p := range v.fn.Params {
+		reg(p.Type())
+	}
+	res := v.fn.Signature.Results()
+	for i := 0; i < res.Len(); i++ {
+		reg(res.At(i).Type())
+	}
+	for _, b := range v.fn.Blocks {
+		for _, in := range b.Instrs {
+			if val, ok := in.(ssa.Value); ok {
+				reg(val.Type())
+			}
+		}
+	}
+}
+
+// markRefHeaps records which Int-sorted heaps hold pointers (as opposed to numbers).
+func (v *FnVC) markRefHeaps(t types.Type) {
+	var rec func(t types.Type, d int)
+	rec = func(t types.Type, d int) {
+		if d > 4 {
+			return
+		}
+		switch u := t.Underlying().(type) {
+		case *types.Slice:
+			if _, ok := u.Elem().Underlying().(*types.Pointer); ok {
+				v.refHeaps[sliceHeap(u.Elem())] = true
+			}
+			rec(u.Elem(), d+1)
+		case *types.Pointer:
+			if s, ok := u.Elem().Underlying().(*types.Struct); ok {
+				for i := 0; i < s.NumFields(); i++ {
+					f := s.Field(i)
+					if _, ok := f.Type().Underlying().(*types.Pointer); ok {
+						v.refHeaps[fieldHeap(u.Elem(), f.Name())] = true
+					}
+					rec(f.Type(), d+1)
+				}
+				return
+			}
+			if _, ok := u.Elem().Underlying().(*types.Pointer); ok {
+				v.refHeaps[cellHeap(u.Elem())] = true
+			}
+			rec(u.Elem(), d+1)
+		}
+	}
+	rec(t, 0)
 }
 
 // typeInv: the constraints every well-typed Go value satisfies.
